@@ -450,3 +450,62 @@ def c12_r7(ctx):
             ctx.viol((f.id, "stack-order-destroyed", c2.name), "`%s` reorders or discards frames of the %s: ancestry / emission order is no longer what the cycle test and the plan rely on (an acyclic graph can be rejected or a rule emitted before its prerequisite)" % (c2.name, "DFS stack" if on_stack else "emission vector"), c2.where)
         else:
             ctx.ok()
+
+
+@rule("C12.R8", floor=1)
+def c12_r8(ctx):
+    """Build-all searches from every rule: in the function that runs the depth-first search
+    in a loop (the sort of the whole graph), the loop runs over 0..len of the frame table
+    handed to the machine (or over the table itself, untruncated), every iteration starts a
+    search at that iteration's index, and a search's error leaves the function.  (A cycle
+    no other rule depends on is found only by a search that starts inside it.)"""
+    P = ctx.P
+    SO = "sort::TopologicalSortMachine::sort_once"
+    cands = []
+    for f in sort_fns(P):
+        for c in f.calls_to(SO):
+            lps = [lp for lp in f.loops() if c.bb in lp["body"]]
+            if lps:
+                cands.append((f, c, min(lps, key=lambda l: len(l["body"]))))
+    ctx.need(len(cands) == 1, "the loop that starts a search per rule")
+    f, c, lp = cands[0]
+    ctx.saw(f)
+    ctx.inst("search loop", f.where(lp["header"]))
+    news = f.calls_to("sort::TopologicalSortMachine::new")
+    ctx.need(len(news) == 1, "the machine construction in %s" % f.id)
+    frames = f.origins_of_operand(news[0].args[0])
+    it = lp["iter"]
+    if it and all(o[0][0] == "agg" and o[0][4].endswith("Range::Range") for o in it):
+        for o in it:
+            rv = f.blocks[o[0][2]]["stmts"][o[0][3]]["rv"]
+            lo, hi = rv["ops"][0], rv["ops"][1]
+            full = lo["k"] == "const" and lo.get("bits") == "0"
+            ends = f.origins_of_operand(hi)
+            if not (ends and all(is_call(h) and h[0][3].endswith("::len") and len(h) == 1 and
+                                 f.origins_of_operand(f.call_at[h[0][2]].args[0]) == frames for h in ends)):
+                full = False
+            if not full:
+                ctx.viol((f.id, "search-range"), "the searches of a whole-graph sort do not run over 0..len of the frame table: some rules are never searched from (a cycle among them goes unreported and they are left out of the plan)", f.where(lp["header"]))
+    elif it and all(any(o[:len(b)] == b for b in frames) for o in it):
+        if any(st[0] == "truncate" for o in it for st in o[1:]):
+            ctx.viol((f.id, "search-range"), "the searches of a whole-graph sort do not cover every frame", f.where(lp["header"]))
+    else:
+        raise AnalysisError("idiom not recognised: the search loop of %s runs neither over a range nor over the frame table" % f.id)
+    # the index searched from is this iteration's
+    io = f.origins_of_operand(c.args[1])
+    if io != lp["elem"] and io != {e + (("field", 0),) for e in lp["elem"]}:
+        ctx.viol((f.id, "search-from-other-index"), "the search started in an iteration is not at that iteration's rule", c.where)
+    r = f.reach([lp["some"][1]], avoid_blocks=[c.bb])
+    if lp["header"] in r:
+        ctx.viol((f.id, "rule-not-searched"), "an iteration of the whole-graph sort can go by without a search from its rule: a cycle (or self-dependence) that no other rule depends on is accepted and its rules are left out of the plan", c.where)
+    else:
+        ctx.ok()
+    err_e = f.edges_of_call_variant(c, "Err")
+    if not err_e:
+        raise AnalysisError("idiom not recognised: the result of the search in %s is not examined by variant" % f.id)
+    r2 = f.reach([x for (_, x) in err_e])
+    if lp["header"] in r2:
+        ctx.viol((f.id, "search-error-ignored"), "a failed search (cycle, self-dependence) does not end the sort", c.where)
+    oks = [(bb, idx) for (bb, idx, rv, pl) in f.constructs("std::result::Result", "Ok") if pl["local"] == 0 and bb in r2]
+    if oks:
+        ctx.viol((f.id, "search-error-ignored"), "a failed search (cycle, self-dependence) can still yield a plan", c.where)
